@@ -95,6 +95,23 @@ def callersHoldW (table : List Fn) (name : String) : Bool :=
   | none => false
   | some i => callSitesMode table (held table) i == some .w
 
+/-- call sites at which a function that takes `adminMutex` itself calls another lock-taking method
+    *before* its own lock (`covered = false`): the check done by the callee and the action done
+    under the caller's lock are then two separate sections (check-then-act is not atomic) -/
+def splitSections (table : List Fn) : List (String × String) :=
+  table.flatMap fun f =>
+    if f.mode == .n then []
+    else (f.calls.filter fun c => !c.2 && (table[c.1]?.map (·.mode != .n)).getD false).map
+      fun c => (f.name, (table[c.1]?.map (·.name)).getD "?")
+
+/-- call sites at which a lock-taking method is called while the caller already holds the lock
+    (`sync.RWMutex` is not re-entrant: a second `Lock`, or an `RLock` behind a waiting writer, deadlocks) -/
+def reentrantCalls (table : List Fn) : List (String × String) :=
+  table.flatMap fun f =>
+    if f.mode == .n then []
+    else (f.calls.filter fun c => c.2 && (table[c.1]?.map (·.mode != .n)).getD false).map
+      fun c => (f.name, (table[c.1]?.map (·.name)).getD "?")
+
 /-- every (function, field, isWrite) at which a guarded field is touched without sufficient lock -/
 def unsafeSites (table : List Fn) : List (String × Field × Bool) :=
   ((table.zip (held table)).flatMap fun (f, h) =>
